@@ -66,6 +66,8 @@ def run(ctx):
     ctx.do(SI.rule_bfs1)
     ctx.do(SI.rule_dv1)
     ctx.do(MI.rule_bfs3)
+    ctx.do(MI.rule_invmap1, ["geometry_tools/automata/fsa.py", "geometry_tools/automata/kbmag_utils.py"])
+    ctx.do(MI.rule_ret1, ["geometry_tools/automata/fsa.py"])
     ctx.do(SI.rule_bfs2)
     ctx.do(SI.rule_acc1, [SI.FSA])
     ctx.do(u1, ENTRIES, min_functions=12)
